@@ -114,9 +114,9 @@ theorem C07_verbatim_text_occurs_in_rendered_output (w : Nat) (d : Doc) (s : Str
 /-- T7.4 without a certificate (route M): for every expression tree of the covered fragment — with
 `@typstyle off` marks on any of its nodes — the rendered layout contains the source text of every
 marked node, character for character and in order, at every width and unit. -/
-theorem C07_fragment_verbatim_preserved (e : Env) (fuel : Nat) (ctx : Ctx) (n : ANode) (hx : isExpr n = true) (hq : inFrag n = true)
+theorem C07_fragment_verbatim_preserved (e : Env) (fuel : Nat) (ctx : Ctx) (hctx : NM ctx) (n : ANode) (hx : isExpr n = true) (hq : inFrag n = true)
     (d : Twin.Doc) (k k' : St) (h : ((knot e fuel).expr ctx n).run k = .ok (d, k')) (u w : Nat) :
     verbText (best w 0 [⟨0, .brk, d.fam u⟩]) = (specVerb n).toList :=
-  (routeM_expr e fuel ctx n hx hq d k k' h u w).2.2.2.2
+  (routeM_expr e fuel ctx hctx n hx hq d k k' h u w).2.2.2.2
 
 end Typstyle
